@@ -35,11 +35,11 @@ RULE = {
  'C08': ('initial meshes of a triangle, square, quad, L-shape, hexagon, square with a 3- or 4-vertex hole in any plane; every path of depth <= 2..3 '
          'over the menu {split_edge at 2-3 points of each edge of each triangle, split_triangle at 2-3 points of each triangle, flip_diagonal of each '
          'edge, restore_delaunay, add_point, refine, get_flipped_aspect_ratio} and random histories of up to several hundred steps; complete '
-         'per-slot state compared after every step; non-trivial = history with >= 2 steps; distinct = distinct (shape, operation list)'),
+         'per-slot state compared after every step; non-trivial = history with >= 2 steps; distinct = distinct (shape, operation list); thorough tier: also streams of the f32 build (correspondence only, no oracle)'),
  'C09': ('same inputs as C01 (from_polygon and mesh_polygon), debug and release builds; outcome class (Ok / Err class / panic site) compared with the '
-         'model, wall time recorded; non-trivial = polygon built; distinct = distinct (outline, holes, parameters)'),
+         'model, wall time recorded; non-trivial = polygon built; distinct = distinct (outline, holes, parameters); thorough tier: also streams of the f32 build (correspondence only, no oracle)'),
  'C18': ('mesh_polygon on polygons of the C01 space with max_area = area/k and max_aspect_ratio in [0.8,10]; the returned triangles compared bit for bit '
-         'with the model (refine on fuel); non-trivial = Ok result with >= 2 triangles; distinct = distinct (outline, holes, parameters)'),
+         'with the model (refine on fuel); non-trivial = Ok result with >= 2 triangles; distinct = distinct (outline, holes, parameters); thorough tier: also streams of the f32 build (correspondence only, no oracle)'),
 }
 _COMMON = [
     'Coq 8.16.1 kernel + vm_compute; structural theorems hold for every number instance of the model (reals, Flocq floats, primitive floats)',
@@ -47,6 +47,10 @@ _COMMON = [
     'verification hooks (complete per-slot state: vertices, normal, area, aspect ratio, circumcentre, centroid, neighbours, constraints, validity, index)',
     'the runner executes the model on NumFfast, proved equal to the primitive-float instance NumF (Run/FastNum.v)',
 ]
+_F32C = ('f32 build (thorough tier): streams of the build with --features float against module Meshf32 of Run/Mesh.v (the same runner text on the binary32 instance '
+         'NumF32fast, PROVED equal to the Flocq-rounded NumF32 in Run/FastNum32Proof.v), bit for bit (outcome class, complete per-slot state, get_trilist); CORRESPONDENCE ONLY: '
+         'the exact-rational oracle of this property does not judge f32 cases; generator restricted to planes in which Loop3D construction mostly succeeds in single '
+         'precision (finding F15: 75% coordinate planes), refusals / Err / panic outcomes are reproduced by the model and counted in the input distribution')
 _F32 = ('f32 build (C01, thorough tier): the same runner text on the binary32 instance, bit for bit: Meshf32 executes NumF32fast (rounding to binary32 by five primitive '
         'operations, Run/FastNum32.v), PROVED equal to NumF32 (every operation followed by Flocq\'s rounding at (24,128)) in Run/FastNum32Proof.v; generator restricted to planes in which Loop3D construction succeeds in single precision (F15), refusal rate in the input '
         'distribution; oracle tolerances for successful f32 triangulations: area sum 1e-4 relative, plane 1e-6 + 2^-18 |coordinate|, reversed triangle = signed area below '
@@ -54,16 +58,16 @@ _F32 = ('f32 build (C01, thorough tier): the same runner text on the binary32 in
 ASSUMPTIONS = {
  'C01': _COMMON + [_F32, 'the geometric half (signed areas, winding numbers) is NOT proved here: it is checked per run by the exact-rational oracle on the '
                    'implementation outputs (area sum, orientation, coverage of sampled points); only the structural facts are theorems'],
- 'C08': _COMMON + ['Conf_struct (neighbour symmetry, validity, counter) is proved preserved only for the operations listed in Properties/C08_mesh.v; the '
+ 'C08': _COMMON + [_F32C, 'Conf_struct (neighbour symmetry, validity, counter) is proved preserved only for the operations listed in Properties/C08_mesh.v; the '
                    'geometric clauses (same region, same outline, orientation) are checked per step by the exact-rational oracle; Properties/C08_region.v and C08_links.v prove '
                    'them on the real-number instance: split_triangle unconditionally; flip_diagonal / split_edge / restore_delaunay / add_point and histories of '
                    'these from any mesh whose links are geometrically exact (LNKG: an invariant of the steps under the separation hypothesis SEP, proved for every '
                    'number instance; NOT proved of from_polygon\'s result), each inserted point separated from the current vertices and, for an edge split, '
                    'exactly on the edge (the crate locates points with a 100-eps tolerance); refine and mesh_polygon are covered through the trace of elementary steps '
                    '(Properties/C08_refine.v) under the same side conditions at every step of the trace; nothing geometric is proved of the float instance'],
- 'C09': _COMMON + ['wall-clock time and stack depth are observed by the harness, not modelled; success for well-conditioned polygons is validated on the '
+ 'C09': _COMMON + [_F32C, 'wall-clock time and stack depth are observed by the harness, not modelled; success for well-conditioned polygons is validated on the '
                    'generated stream, not proved (needs the two-ears theorem)'],
- 'C18': _COMMON + ['the theorem is about the cached aspect_ratio and the cached Heron area of each slot; that these agree with circumradius / shortest edge '
+ 'C18': _COMMON + [_F32C, 'the theorem is about the cached aspect_ratio and the cached Heron area of each slot; that these agree with circumradius / shortest edge '
                    'is re-measured exactly (squared, rational) by the oracle on every returned triangle'],
 }
 THEOREMS = {
@@ -152,16 +156,23 @@ def streams(prop, tier):
     if prop == 'C08':
         if q: return [Stream('C08hist', 180, extra=['2']), Stream('C08rand', 12, extra=['90'])]
         if tier == 'search': return [Stream('C08hist', 1500, extra=['2']), Stream('C08rand', 100, extra=['150'])]
-        return [Stream('C08hist', 1800, extra=['3']), Stream('C08rand', 70, extra=['250']), Stream('C08rand', 40, release=True, extra=['250'])]
+        return [Stream('C08hist', 1800, extra=['3']), Stream('C08rand', 70, extra=['250']), Stream('C08rand', 40, release=True, extra=['250']),
+                # the f32 build: correspondence only (the C08 oracle does not judge f32 cases)
+                Stream('C08hist', 400, f32=True, extra=['2']), Stream('C08rand', 30, f32=True, extra=['120'])]
     if prop == 'C09':
         if q: return [Stream('C09mesh', 132), Stream('C09mesh', 64, release=True), Stream('C09refine', 40, extra=['120', '40', '2.0']), Stream('C09refine', 24, release=True, extra=['120', '40', '2.0'])]
         if tier == 'search': return [Stream('C09mesh', 400), Stream('C09refine', 150, extra=['0', '2000', '3.0'])]
         return [Stream('C09mesh', 1200), Stream('C09mesh', 600, release=True), Stream('C09refine', 160, extra=['500', '300', '3.0']),
-                Stream('C09refine', 160, release=True, extra=['0', '2000', '6.0'])]
+                Stream('C09refine', 160, release=True, extra=['0', '2000', '6.0']),
+                # the f32 build: correspondence only (outcome class Ok / Err class / panic site reproduced by the binary32 model); the
+                # C09 oracle does not judge f32 cases (finding F15: half of the f32 polygons with holes fail, outside C09's quantifier)
+                Stream('C09mesh', 500, f32=True), Stream('C09refine', 120, f32=True, extra=['300', '100', '2.0'])]
     if prop == 'C18':
         if q: return [Stream('C18refine', 92, extra=['150', '60', '2.0']), Stream('C18refine', 32, release=True, extra=['150', '60', '2.0'])]
         if tier == 'search': return [Stream('C18refine', 200, extra=['0', '2000', '3.0'])]
-        return [Stream('C18refine', 200, extra=['500', '300', '3.0']), Stream('C18refine', 160, release=True, extra=['0', '2000', '6.0'])]
+        return [Stream('C18refine', 200, extra=['500', '300', '3.0']), Stream('C18refine', 160, release=True, extra=['0', '2000', '6.0']),
+                # the f32 build: correspondence only (the C18 oracle does not judge f32 cases)
+                Stream('C18refine', 120, f32=True, extra=['300', '100', '2.0'])]
     return []
 
 # ------------------------------------------------------------------------------------------------
@@ -589,6 +600,8 @@ def oracle_C08(c):
 def oracle(prop, c, st):
     set_format(c, st)
     if prop == 'C01': return oracle_C01(c)
+    # f32 build: only the C01 oracle is calibrated for 24-bit rounding (PREC32); C08 / C09 / C18 f32 cases are correspondence only
+    if is_f32(c, st): return None
     if prop == 'C08': return oracle_C08(c)
     if prop == 'C09': return oracle_C09(c)
     if prop == 'C18': return oracle_C18(c)
@@ -599,7 +612,7 @@ def classify(prop, c, st):
     fam = c['note'].split(':')[0]
     if is_f32(c):
         # f32 streams: the plane kind and whether the polygon could be built at all are part of the bucket (refusal rate, F15)
-        fam = 'f32:' + c['note'].split(':')[-1].split(' ')[0] + ':' + fam + (':refused' if c.get('build') else '')
+        fam = 'f32:' + next((x.split(' ')[0] for x in c['note'].split(':') if x.startswith('plane')), c['note'].split(':')[-1].split(' ')[0]) + ':' + fam + (':refused' if c.get('build') else '')
     if c['kind'] == 'hi':
         key = (tuple(c['outer']), tuple((s['k'], s['i'], s['e'], tuple(s['fl'])) for s in c['steps']))
         return key, len(c['steps']) < 2, fam
